@@ -827,7 +827,63 @@ def y_group_origin(prog, rep, rule):
 
 
 # ---------------------------------------------------------------------------------
+def assembly_rules(prog, rep):
+    """the 2-D collector: each region's block of the global array at location L is the region's
+    own array at L without the face it shares with its neighbour; the three extra corner arrays
+    are the shifted views of the region's corners"""
+    mod = prog.module(MESH)
+    geo = mod.funcs.get("BoutMesh.geometry")
+    fa = None
+    for n in ast.walk(geo.node):
+        if isinstance(n, ast.FunctionDef) and any(isinstance(c, ast.Attribute) and c.attr == "fields_to_output" for c in ast.walk(n)):
+            fa = n
+    if fa is None:
+        raise AnalysisError("2-D field collector not found")
+    site = "%s:%d (BoutMesh.geometry.%s)" % (mod.rel, fa.lineno, fa.name)
+    want = {"centre": ("centre", None, "_centre_array"), "xlow": ("xlow", ":-1,:", "_xlow_array"), "ylow": ("ylow", ":,:-1", "_ylow_array"),
+            "corners": ("corners", ":-1,:-1", "_corners_array"), "lower_right_corners": ("corners", "1:,:-1", "_corners_array"),
+            "upper_right_corners": ("corners", "1:,1:", "_corners_array"), "upper_left_corners": ("corners", ":-1,1:", "_corners_array")}
+    parents = {}
+    for n in ast.walk(fa):
+        for ch in ast.iter_child_nodes(n):
+            parents[ch] = n
+    got = {}
+    for s in ast.walk(fa):
+        if isinstance(s, ast.Assign) and isinstance(s.targets[0], ast.Subscript):
+            t = s.targets[0]
+            if isinstance(t.value, ast.Attribute) and isinstance(t.value.value, ast.Name) and t.value.value.id == "f" and t.value.attr in want:
+                v = s.value
+                src = sl = None
+                if isinstance(v, ast.Attribute) and isinstance(v.value, ast.Name) and v.value.id == "f_region":
+                    src = v.attr
+                elif isinstance(v, ast.Subscript) and isinstance(v.value, ast.Attribute) and isinstance(v.value.value, ast.Name) and v.value.value.id == "f_region":
+                    src, sl = v.value.attr, T(mod, v.slice)
+                guards = []
+                cur = s
+                while cur in parents:
+                    cur = parents[cur]
+                    if isinstance(cur, ast.If):
+                        guards.append(T(mod, cur.test))
+                in_loop = any(isinstance(p_, ast.For) and T(mod, p_.iter) == K("self.regions.values()") for p_ in _ancestors(parents, s))
+                got[t.value.attr] = (src, sl, T(mod, t.slice), guards, in_loop)
+    for loc, (src, sl, guard_attr) in want.items():
+        g = got.get(loc)
+        ok = g is not None and g[0] == src and g[1] == (K(sl) if sl else None) and g[2] == K("self.region_indices[region.myID]") \
+            and K("f_region.%s is not None" % guard_attr) in g[3] and g[4]
+        rep.ob("R3", "assembly: global %s block of a region is the region's %s%s, stored at the region's index block, only when the region has that location" % (loc, src, "[%s]" % sl if sl else ""),
+               ok, site, str(g), key="assembly/" + loc)
+    ok = any(isinstance(s, ast.Assign) and T(mod, s) == K("f = MultiLocationArray(self.nx, self.ny)") for s in ast.walk(fa))
+    rep.ob("R3", "assembly: the global array has the global size nx by ny", ok, site, "", key="assembly/size")
+
+
+def _ancestors(parents, n):
+    while n in parents:
+        n = parents[n]
+        yield n
+
+
 def r8(prog, rep):
+    assembly_rules(prog, rep)
     mod = prog.module(MESH)
     geo = mod.funcs.get("BoutMesh.geometry")
     fx = None
